@@ -58,6 +58,11 @@ fn main() {
         println!("stops: runs {runs} in {:?}", t.elapsed());
         return;
     }
+    if std::env::args().nth(1).as_deref() == Some("C04-after-disconnect") {
+        std::panic::set_hook(Box::new(|_| {}));
+        vsim::c04::after_final_disconnect_child();
+        return;
+    }
     let cli = common::cli();
     net::raise_fd_limit();
     match cli.id.as_str() {
